@@ -169,11 +169,12 @@ Qed.
 
 (* ---------- every op: flags and waits (C07 flags, C19 one wait per emitted recovery record) ---------- *)
 Definition is_main (op : rop) : bool := match op with MainRec _ _ => true | _ => false end.
+Definition is_reccrash (op : rop) : bool := match op with RecCrash _ => true | _ => false end.
 
 Lemma rstep_flags_waits cfg s op :
-  is_main op = false -> flagged (snd (rstep cfg s op)) /\ waits_ok (snd (rstep cfg s op)).
+  is_main op = false -> is_reccrash op = false -> flagged (snd (rstep cfg s op)) /\ waits_ok (snd (rstep cfg s op)).
 Proof.
-  intros Hm. destruct op as [p k|p d|p d|p o|p o|code wm lows| |ps| |p f t|cerr pcs|m|]; try discriminate; cbn [rstep].
+  intros Hm Hc. destruct op as [p k|p d|p d|p o|p o|code wm lows| |ps| |p f t|cerr pcs|m| |p|p d]; try discriminate; cbn [rstep].
   - apply pump_flagged.
   - split; [apply rec_step_flagged|apply rec_step_waits].
   - apply ahead_step_flagged.
@@ -188,6 +189,28 @@ Proof.
   - destruct (file_all _ _). split; [intros e []|reflexivity].
   - destruct m; split; try (intros e []); reflexivity.
   - split; [apply out_nil_flagged|apply out_nil_waits].
+  - unfold wild_step. destruct (pget p (cli s)); [|split; [apply out_nil_flagged|apply out_nil_waits]].
+    destruct (pget p (active s)); [split; [apply rec_step_flagged|apply rec_step_waits]|split; [apply out_nil_flagged|apply out_nil_waits]].
+Qed.
+
+(* the owner dies while handling a record: nothing is emitted; the one wait of the record it was about to emit may
+   have been taken *)
+Lemma rec_crash_out cfg s p :
+  o_emits (snd (rec_crash cfg s p)) = [] /\ (o_waits (snd (rec_crash cfg s p)) = [] \/ o_waits (snd (rec_crash cfg s p)) = [0]).
+Proof.
+  unfold rec_crash. destruct (pget p (cli s)) as [n|]; [|cbn; auto].
+  destruct (would_send s p n) eqn:Ew; [cbn; auto|].
+  pose proof (rec_step_case cfg s p n) as Hc. destruct (rec_step cfg s p n) as [s1 out]. cbn [fst snd] in *.
+  destruct Hc as [Ha|f t Ha Hlt|f t s' calls Ha Hfo Hto Hr|f t r Ha Hfo Hot Hr]; cbn [o_emits o_waits out_nil]; auto.
+  unfold would_send in Ew. rewrite Ha in Ew. replace (n >? f) with false by lia. auto.
+Qed.
+
+Lemma rstep_flagged_all cfg s op :
+  is_main op = false -> forall e, In e (o_emits (snd (rstep cfg s op))) -> snd e = true.
+Proof.
+  intros H. destruct (is_reccrash op) eqn:E.
+  - destruct op; try discriminate. cbn [rstep]. rewrite (proj1 (rec_crash_out cfg s p)). intros e [].
+  - exact (proj1 (rstep_flags_waits cfg s op H E)).
 Qed.
 
 Lemma mainrec_out cfg s p o :
@@ -222,13 +245,22 @@ Proof. apply list_eqb_refl. apply Z.eqb_refl. Qed.
 Lemma c19_waits_model cfg op s outprev :
   c19_waits op (mk_opobs s outprev) (mk_opobs (fst (rstep cfg s op)) (snd (rstep cfg s op))) = [].
 Proof.
-  unfold c19_waits. destruct (is_main op) eqn:Em.
-  - destruct op; try discriminate. reflexivity.
-  - destruct (rstep_flags_waits cfg s op Em) as [Hf Hw]. cbn [b_emits b_waits mk_opobs].
-    rewrite (rec_emits_flagged _ Hf). rewrite Hw, list_eqb_Z_refl.
-    replace (match op with MainRec _ _ => 1%nat | _ => length (o_emits (snd (rstep cfg s op))) end)
-      with (length (o_emits (snd (rstep cfg s op)))) by (destruct op; try reflexivity; discriminate).
-    rewrite Nat.eqb_refl. reflexivity.
+  destruct (is_reccrash op) eqn:Ec.
+  - destruct op; try discriminate. unfold c19_waits. cbn [rstep mk_opobs b_emits b_waits].
+    destruct (rec_crash_out cfg s p) as [He [Hw|Hw]]; rewrite He, Hw; reflexivity.
+  - assert (Hsame : c19_waits op (mk_opobs s outprev) (mk_opobs (fst (rstep cfg s op)) (snd (rstep cfg s op))) =
+      (let a := mk_opobs (fst (rstep cfg s op)) (snd (rstep cfg s op)) in
+       let n := length (rec_emits (b_emits a)) in
+       if list_eqb Z.eqb (b_waits a) (zrange 0 n)
+          && (length (b_emits a) =? match op with MainRec _ _ => 1 | _ => n end)%nat
+       then [] else [(1, [match op with MainRec _ _ => 2 | _ => 1 end])])) by (destruct op; try discriminate; reflexivity).
+    rewrite Hsame. clear Hsame. cbv zeta. destruct (is_main op) eqn:Em.
+    + destruct op; try discriminate. reflexivity.
+    + destruct (rstep_flags_waits cfg s op Em Ec) as [Hf Hw]. cbn [b_emits b_waits mk_opobs].
+      rewrite (rec_emits_flagged _ Hf). rewrite Hw, list_eqb_Z_refl.
+      replace (match op with MainRec _ _ => 1%nat | _ => length (o_emits (snd (rstep cfg s op))) end)
+        with (length (o_emits (snd (rstep cfg s op)))) by (destruct op; try reflexivity; discriminate).
+      rewrite Nat.eqb_refl. reflexivity.
 Qed.
 
 Lemma dedup_fail_nil : dedup_fail [] = []. Proof. reflexivity. Qed.
@@ -244,13 +276,34 @@ Qed.
 Definition total_waits (l : list (rstate * rout)) : nat := length (flat_map (fun so => o_waits (snd so)) l).
 Definition total_recovered (l : list (rstate * rout)) : nat := length (flat_map (fun so => rec_emits (o_emits (snd so))) l).
 
-Lemma run_waits cfg : forall ops s, total_waits (rrun cfg s ops) = total_recovered (rrun cfg s ops).
+Lemma run_waits cfg : forall ops s, forallb (fun op => negb (is_reccrash op)) ops = true ->
+  total_waits (rrun cfg s ops) = total_recovered (rrun cfg s ops).
 Proof.
-  induction ops as [|op ops IH]; intros s; cbn [rrun]; [reflexivity|].
+  induction ops as [|op ops IH]; intros s Hn; cbn [rrun]; [reflexivity|].
+  cbn [forallb] in Hn. apply andb_true_iff in Hn as [Hn1 Hn2]. apply negb_true_iff in Hn1.
   destruct (rstep cfg s op) as [s' out] eqn:E. unfold total_waits, total_recovered in *. cbn [flat_map snd].
-  rewrite !app_length, IH. f_equal.
+  rewrite !app_length, (IH s' Hn2). f_equal.
   destruct (is_main op) eqn:Em.
   - destruct op; try discriminate. cbn in E. inversion E; subst. reflexivity.
-  - destruct (rstep_flags_waits cfg s op Em) as [Hf Hw]. rewrite E in Hf, Hw. cbn [snd] in *.
+  - destruct (rstep_flags_waits cfg s op Em Hn1) as [Hf Hw]. rewrite E in Hf, Hw. cbn [snd] in *.
     rewrite (rec_emits_flagged _ Hf), Hw. clear. generalize 0. induction (length (o_emits out)); intros z; cbn; auto.
+Qed.
+
+(* with owners dying while blocked on an emission, waits can exceed emitted events by at most one per such stop *)
+Lemma run_waits_bounds cfg : forall ops s,
+  (total_recovered (rrun cfg s ops) <= total_waits (rrun cfg s ops)
+   <= total_recovered (rrun cfg s ops) + length (filter is_reccrash ops))%nat.
+Proof.
+  induction ops as [|op ops IH]; intros s; cbn [rrun]; [cbn; lia|].
+  destruct (rstep cfg s op) as [s' out] eqn:E. unfold total_waits, total_recovered in *. cbn [flat_map snd filter].
+  rewrite !app_length. specialize (IH s').
+  destruct (is_reccrash op) eqn:Ec.
+  - destruct op; try discriminate. cbn [rstep] in E. pose proof (rec_crash_out cfg s p) as [He Hw]. rewrite E in He, Hw. cbn [snd] in *.
+    rewrite He. cbn [rec_emits flat_map length]. destruct Hw as [-> | ->]; cbn [length]; lia.
+  - assert (Heq : length (o_waits out) = length (rec_emits (o_emits out))).
+    { destruct (is_main op) eqn:Em.
+      - destruct op; try discriminate. cbn in E. inversion E; subst. reflexivity.
+      - destruct (rstep_flags_waits cfg s op Em Ec) as [Hf Hw]. rewrite E in Hf, Hw. cbn [snd] in *.
+        rewrite (rec_emits_flagged _ Hf), Hw. clear. generalize 0. induction (length (o_emits out)); intros z; cbn; auto. }
+    lia.
 Qed.
